@@ -42,6 +42,7 @@ type harnessFile struct {
 	funcs    []string
 	stubs    map[string]string
 	sums     []string
+	dropgo   []string
 	extra    map[string]string // additional overlay: repo-relative target -> repo-relative source (current tree)
 	replayFn map[string]string
 	bounds   []string
@@ -76,6 +77,8 @@ func parseHarness(path string) (*harnessFile, error) {
 			h.stubs[strings.TrimSpace(parts[0])] = strings.TrimSpace(parts[1])
 		case "summarize":
 			h.sums = append(h.sums, arg)
+		case "dropgo":
+			h.dropgo = append(h.dropgo, arg)
 		case "overlay":
 			parts := strings.SplitN(arg, "<-", 2)
 			if len(parts) != 2 {
@@ -418,6 +421,13 @@ func run(id, tier, repo, verif, only string, workers int, trace, noReplay bool, 
 			}
 			sums[s] = true
 		}
+		dropgo := map[string]bool{}
+		for _, d := range h.dropgo {
+			if _, ok := byName[d]; !ok {
+				return fail("dropgo target %q not found", d)
+			}
+			dropgo[d] = true
+		}
 		for _, fnName := range h.funcs {
 			if len(onlySet) > 0 && !onlySet[fnName] {
 				continue
@@ -429,7 +439,7 @@ func run(id, tier, repo, verif, only string, workers int, trace, noReplay bool, 
 			ec := &interp.Config{
 				Prog: prog, Stubs: stubs, Summaries: sums, MaxSteps: maxSteps, MaxPaths: maxPaths,
 				QueryTimeout: qTimeout, Workers: workers, Solver: solverKind, Trace: trace,
-				Deadline: time.Now().Add(budget), Tier: tier, KnownActive: knownActive,
+				Deadline: time.Now().Add(budget), Tier: tier, KnownActive: knownActive, DropGo: dropgo,
 			}
 			res := interp.Explore(ec, fn)
 			rep := harnessReport{
